@@ -116,8 +116,7 @@ def run(tier):
         ninst = 1 if k % 3 == 0 else (2 if k % 3 == 1 else 3)
         L = rnd.randrange(4, 41)
         seqs.append([(rnd.randrange(ninst), rnd.choice(SETTERS), rnd.choice([0, 1, 2] * 3 + odd)) for _ in range(L)])
-    cases = []
-    for seq in seqs:
+    def to_cmds(seq):
         ninst = 1 + max([i for i, _, _ in seq] + [0])
         cmds = ["new %d ext 256 H 0xcc" % i for i in range(ninst)]
         for i, s, x in seq:
@@ -125,14 +124,29 @@ def run(tier):
         for i in range(ninst):
             cmds.append("asm %d %s" % (i, common.hx(PROBES)))
             cmds.append("dump %d 0 40" % i)
-        cases.append(cmds)
+        return cmds
+
+    cases = [to_cmds(seq) for seq in seqs]
     res = common.run_cases(binary, cases, tag="c12")
+    runs = [(seq, cmds, r, "") for seq, cmds, r in zip(seqs, cases, res)]
+    # the state of a NEW instance must not depend on what the heap happened to contain: the instance is malloc'ed, and both
+    # ASan's default fill pattern (0xbe) and a zeroed heap coincide with plausible option values. Sequences that leave at least
+    # one dimension untouched are repeated under other heap fill patterns, on the ASan and on the uninstrumented build.
+    short = [([], to_cmds([]))] + [(seq, cmds) for seq, cmds in zip(seqs[:n_exh], cases[:n_exh]) if len(seq) <= 1][:80]
+    plain = common.build("plain")
+    heaps = [("asan", binary, {"ASAN_OPTIONS": common.SAN_ENV["ASAN_OPTIONS"] + ":malloc_fill_byte=%d" % b}, "asan-fill-%02x" % b) for b in (0x00, 0xff, 0x41, 0x5a)]
+    heaps += [("plain", plain, {"MALLOC_PERTURB_": str(b)}, "glibc-perturb-%d" % b) for b in (0, 1, 85, 170, 255)]
+    for fl, bn, envx, name in heaps:
+        rs = common.run_cases(bn, [c for _, c in short], tag="c12h", env_extra=envx)
+        runs += [(seq, cmds, r, name) for (seq, cmds), r in zip(short, rs)]
+    v.cov["heap_fill_variants"] = [h[3] for h in heaps]
+    v.cov["heap_fill_cases"] = len(short) * len(heaps)
     seen_states = set()
     seen_trans = set()
-    for seq, cmds, r in zip(seqs, cases, res):
+    for seq, cmds, r, heap in runs:
         v.count()
         ninst = 1 + max([i for i, _, _ in seq] + [0])
-        case = {"key": " ".join("%d:%s(%d)" % t for t in seq)[:300], "fam": "optseq", "len": len(seq), "ninst": ninst}
+        case = {"key": (heap + " " if heap else "") + " ".join("%d:%s(%d)" % t for t in seq)[:300], "fam": "optseq" if not heap else "optseq_heap", "len": len(seq), "ninst": ninst, "heap": heap}
         if r["crash"]:
             v.violation(case, r["crash"]["sig"], r["crash"]["stderr"][-800:])
             continue
@@ -163,7 +177,7 @@ def run(tier):
         if bad:
             v.violation(case, bad[0], bad[1])
         else:
-            v.distinct(tuple(seq))
+            v.distinct((heap,) + tuple(seq))
             if len(v.cov["samples"]) < 8 and (len(seq) in (1, 4) or rnd.random() < 0.002):
                 v.sample({"sequence": case["key"], "final_states": [list(s) for s in st], "probe_observations(p1 narrowed,p2 narrowed,swap,nobase)": [list(probe_obs_expected(s)) for s in st]})
     v.cov["rule"] = ("reference FSM over (mov, swap, nobase); from each of the 12 states each of the 20 transitions (5 setters x {STRICT,NASM,SMART,3}); all setter sequences of "
